@@ -343,7 +343,14 @@ def make_data_factory(flavour: str) -> Callable[[str], Any]:
         elif flavour == "dictwrapper":
             from nutree.common import DictWrapper
 
-            d = DictWrapper({"name": label})
+            if label in ("b", "x"):
+                # a record wrapped while still empty and filled in afterwards: the wrapper refers to *that* dict
+                # (identity), whatever its truth value at wrapping time
+                rec: dict = {}
+                d = DictWrapper(rec)
+                rec["name"] = label
+            else:
+                d = DictWrapper({"name": label})
         elif flavour == "keyed":
             d = Keyed("key_" + label)
         else:
